@@ -21,6 +21,15 @@ later, in a batch, with the shared `load_tokenizer`; what it compiles to may dep
 The flattened file is compared MODULO THE FILE MAPPING: a statement keeps its meaning (pythonFile paths are rebased when pasted), file
 names / lines printed in the output or in the diagnostic must be those of the statement's own file and line on either side.  The
 model (EvBatch tok l) must predict the file every watched statement was compiled as text of, and the file of the diagnostic.
+Strengthening round 4: the NAME and SPELLING space of import statements (gen_names + wider random spellings).  The model now starts from
+the import STRING (Model/ImportPath.v: wildcard iff it ends in "/*" or "\\*", text cut at "/" only, `.jmc` completion on the resolved
+name) and from the directory tree found on disk (`nodes`: files and folders; the listings handed to the model must describe it).
+Projects: a module file next to a folder of the same stem (lib.jmc + lib/), a folder without its file, stems with dots, x.jmc.jmc, a file
+called `.jmc`, upper/lower case twins, names with a backslash or a `*`, a folder called d.jmc below a wildcard; spellings ./x, a/../x
+(through existing and non-existing names), trailing and doubled slashes, `x.jmc/.`, absolute, backslash in plain and wildcard imports,
+wildcards of depth 0/1/2 and upwards (`*`, `./*`, `/*`, `\\*`, `lib/*`, `lib/sub/*`, `../*`) written in main and in files of sub-folders;
+bystander files (.jmc and look-alikes such as x.jmcx, x.jmc.bak) at every level.  New direct check: the .jmc files the compiler READS,
+in order, are exactly the files the specification pastes (set and order), besides the model's prediction of the same.
 """
 from __future__ import annotations
 
@@ -40,7 +49,7 @@ P = "w/proj"                      # project directory below the temp root
 ROOTC = "R"                       # the temp root is called /R in the model
 
 HEADER = ("From Coq Require Import String List Bool Arith.\n"
-          "From JMCV Require Import Model.Import Run.Common Run.C17.\n"
+          "From JMCV Require Import Model.Import Model.ImportPath Run.Common Run.C17.\n"
           "Import ListNotations.\nOpen Scope string_scope.\n")
 
 # ------------------------------------------------------------------ items
@@ -144,29 +153,49 @@ def spec_dir(fid: tuple, s: str) -> tuple:
     return canon(base, d.split("/"))
 
 
+def spec_walk_ok(fid: tuple, s: str, listing: dict) -> bool:
+    """round 4: `folder.is_dir()` of a wildcard import is answered by the operating system on the UNRESOLVED path
+    `<folder of the importer>/<text>`: every name on the way must be an existing folder (listing: folder -> files | None)"""
+    d = model_str(s[:-2])
+    cur = [] if d.startswith("/") else list(fid[:-1])
+    for c in d.split("/"):
+        if c in ("", "."):
+            continue
+        if c == "..":
+            cur = cur[:-1]
+            continue
+        cur.append(c)
+        if listing.get(tuple(cur)) is None:
+            return False
+    return True
+
+
 class SpecError(Exception):
     def __init__(self, kind, path):
         self.kind, self.path = kind, path
 
 
-def spec_flatten(files: dict, listing: dict, main_id: tuple) -> list:
-    """The single file: each imported file pasted in place of its first import (files keyed by identity)."""
+def spec_flatten(files: dict, listing: dict, main_id: tuple, order: list | None = None) -> list:
+    """The single file: each imported file pasted in place of its first import (files keyed by identity).
+    order (round 4): receives the files in the order they are pasted = the order they have to be READ in."""
     seen, out = set(), []
+    order = [] if order is None else order
 
     def rec(fid):
         if fid in seen:
             return
         seen.add(fid)
+        order.append(fid)
         if fid not in files:
             raise SpecError("notfound", fid)
         for it in files[fid]:
             if it[0] in ("load", "def"):
                 out.append(tuple(it[:3]) + (fid,))          # + the file it was written in
-            elif it[0] == "import":
+            elif not is_wild(it[1]):
                 rec(spec_target(fid, it[1]))
             else:
                 d = spec_dir(fid, it[1])
-                if listing.get(d) is None:
+                if not spec_walk_ok(fid, it[1], listing) or listing.get(d) is None:
                     raise SpecError("dirnotfound", d)
                 for f in listing[d]:
                     rec(f)
@@ -177,14 +206,37 @@ def spec_flatten(files: dict, listing: dict, main_id: tuple) -> list:
 # ------------------------------------------------------------------ projects
 
 def tup(relpath: str) -> tuple:
-    return (ROOTC,) + tuple(relpath.split("/"))
+    return (ROOTC,) + tuple(relpath.split("/")) if relpath else (ROOTC,)
+
+
+def is_wild(s: str) -> bool:
+    """lexer.py: `string.endswith("/*") or string.endswith("\\*")` (the harness' own reading of the import string)"""
+    return s.endswith("/*") or s.endswith("\\*")
+
+
+def retag(it):
+    """an import statement is ("import" | "wild", string[, "raw"]): the tag is what the STRING says, whatever the generator meant"""
+    if it[0] in ("import", "wild"):
+        return ("wild" if is_wild(it[1]) else "import",) + tuple(it[1:])
+    return tuple(it)
+
+
+def import_source(it) -> str:
+    """the statement as written in the file: a backslash of the string is written `\\\\`; ("..", "raw"): a final `\\*` written with ONE
+    backslash (an unknown escape sequence: the tokenizer keeps it as it is)"""
+    s = it[1]
+    if len(it) > 2 and it[2] == "raw" and s.endswith("\\*") and "\\" not in s[:-2]:
+        return f'import "{s}";'
+    return 'import "' + s.replace("\\", "\\\\") + '";'
 
 
 class Project:
-    def __init__(self, files: dict[str, list], dirs: list[str], cwd: str, target: str, tag: str):
-        self.files = files            # {"w/proj/a.jmc": [items]}   item = ("load"|"def", n, kind) | ("import", s) | ("wild", s)
+    def __init__(self, files: dict[str, list], dirs: list[str], cwd: str, target: str, tag: str, extra: dict | None = None):
+        # {"w/proj/a.jmc": [items]}   item = ("load"|"def", n, kind) | ("import"|"wild", string[, "raw"])
+        self.files = {f: [retag(i) for i in its] for f, its in files.items()}
         self.dirs = dirs
         self.cwd, self.target, self.tag = cwd, target, tag
+        self.extra = dict(extra or {})      # round 4: files that are no .jmc source (look-alikes: x.jmcx, x.jmc.bak, notes.txt): {path: text}
 
     def file_text(self, items) -> str:
         lines = []
@@ -192,7 +244,7 @@ class Project:
             if it[0] in ("load", "def"):
                 lines.append(item_text(it[2], it[1]))
             else:
-                lines.append(f'import "{it[1]}";')
+                lines.append(import_source(it))
         return "\n".join(lines) + "\n"
 
     def kinds(self) -> set:
@@ -222,7 +274,7 @@ class Project:
 
     def all_dirs(self) -> list[str]:
         ds = set(self.dirs)
-        for f in self.files:
+        for f in list(self.files) + list(self.extra):
             d = posixpath.dirname(f)
             while d:
                 ds.add(d)
@@ -230,8 +282,8 @@ class Project:
         return sorted(ds)
 
     def job(self) -> dict:
-        return dict(files=dict({f: self.file_text(its) for f, its in self.files.items()}, **self.aux_files()), dirs=self.dirs, cwd=self.cwd,
-                    target=self.target, globs=self.all_dirs())
+        return dict(files=dict({f: self.file_text(its) for f, its in self.files.items()}, **self.aux_files(), **self.extra), dirs=self.dirs,
+                    cwd=self.cwd, target=self.target, globs=self.all_dirs())
 
     def main_id(self) -> tuple:
         t = model_str(self.target)
@@ -239,11 +291,11 @@ class Project:
         return canon(base, t.split("/"))
 
     def to_json(self):
-        return dict(files=self.files, dirs=self.dirs, cwd=self.cwd, target=self.target, tag=self.tag)
+        return dict(files=self.files, dirs=self.dirs, cwd=self.cwd, target=self.target, tag=self.tag, **({"extra": self.extra} if self.extra else {}))
 
     @staticmethod
     def from_json(o):
-        return Project({k: [tuple(i) for i in v] for k, v in o["files"].items()}, o["dirs"], o["cwd"], o["target"], o.get("tag", ""))
+        return Project({k: [tuple(i) for i in v] for k, v in o["files"].items()}, o["dirs"], o["cwd"], o["target"], o.get("tag", ""), o.get("extra"))
 
 
 def flat_rel(it) -> str:
@@ -282,8 +334,45 @@ MAIN_SPELLINGS = [            # (cwd, target)
 ]
 
 
+def named_spellings(src: str, dst: str) -> list[str]:
+    """round 4: many ways of writing, in file `src`, a named import of file `dst` - kept only if the harness' own reading of the
+    string (spec_target) is `dst`"""
+    rel = posixpath.relpath(dst, posixpath.dirname(src))
+    bases = [rel] + ([rel[:-4]] if rel.endswith(".jmc") else [])
+    first = rel.split("/")[0]
+    out = []
+    for b in bases:
+        out += [b, "./" + b, ".//" + b, "zz/../" + b, "zz/./yy/../../" + b, b + "/", b + "/.", b + "//", b.replace("/", "//"), b.replace("/", "/./")]
+        if "/" in b and first not in ("..", "."):
+            out.append(first + "/../" + b)
+        dd = posixpath.dirname(src)
+        if posixpath.basename(dd):
+            out.append("../" + posixpath.basename(dd) + "/" + b)
+        for a in (dst, dst[:-4] if b != rel else dst):
+            out += ["{ROOT}/" + a, "{ROOT}/./" + a, "{ROOT}/w/../" + a]
+    return sorted({v for v in out if spec_target(tup(src), v) == tup(dst)})
+
+
+def wild_spellings(src: str, d: str) -> list[str]:
+    """round 4: many ways of writing, in file `src`, a wildcard import of folder `d` (both endings)"""
+    rel = posixpath.relpath(d, posixpath.dirname(src))
+    out = []
+    for b in ([rel] if rel != "." else [".", "", "./."]):
+        for e in ("/*", "\\*"):
+            out += [b + e, "./" + b + e, b + "/" + e, b + "/." + e, b.replace("/", "//") + e]
+            if b not in (".", "", "./.", "zz/..") and not b.startswith(".."):
+                out.append(b + "/../" + posixpath.basename(b) + e)             # a detour through an EXISTING folder (the OS walks the path)
+    for e in ("/*", "\\*"):
+        out += ["{ROOT}/" + d + e, "{ROOT}/w/../" + d + e, "{ROOT}/" + d + "/." + e]
+    return sorted({v for v in out if is_wild(v) and spec_dir(tup(src), v) == tup(d)})
+
+
 def import_spelling(rng, src: str, dst: str, style: int | None = None) -> str:
     """An import string in file `src` denoting file `dst` (both relative to the root)."""
+    if style is None and rng.random() < .25:
+        c = named_spellings(src, dst)
+        if c:
+            return rng.choice(c)
     rel = posixpath.relpath(dst, posixpath.dirname(src))
     style = rng.randrange(8) if style is None else style
     stem = rel[:-4]
@@ -306,6 +395,10 @@ def import_spelling(rng, src: str, dst: str, style: int | None = None) -> str:
 
 
 def wild_spelling(rng, src: str, d: str) -> str:
+    if rng.random() < .3:
+        c = wild_spellings(src, d)
+        if c:
+            return rng.choice(c)
     rel = posixpath.relpath(d, posixpath.dirname(src))
     r = rng.randrange(4)
     if r == 0 and rel != ".":
@@ -470,6 +563,108 @@ def gen_adversarial(rng):
              cwd, target, tag="cycle-loads-only")
         proj({m: [("import", "a"), D(1000), L(1001)], f"{P}/a.jmc": [("import", "sub/../main.jmc"), D(1002)]},
              cwd, target, tag="cycle-def-after-import")
+    return out
+
+
+# ------------------------------------------------------------------ the NAME and SPELLING space (strengthening round 4)
+
+NAMED_STRINGS = [     # written in main.jmc (folder P)
+    "lib", "lib.jmc", "./lib", "lib/", "lib/.", "lib.jmc/", "lib.jmc/.", "./lib.jmc", "zz/../lib", "sub/../lib", "lib/../lib", ".//lib",
+    "{ROOT}/w/proj/lib", "{ROOT}/w/proj/./lib.jmc", "{ROOT}/w/other/../proj/lib", "a", "A", "a.b", "a.b.jmc", "x", "x.jmc", "x.jmc.jmc", "", "./",
+    ".jmc", "*", "./*.jmc", "sub\\c", "sub/c", "sub//c", "sub/c.jmc/", "only", "only/o", "Lib/x", "lib/X", "lib/x", "lib/sub/y", "lib/d",
+    "lib/d.jmc/z", "lib\\sub/w", "nope", "lib/nope", "a.jmc.jmc", "a.JMC", "lib/sub", "sub", "by/../lib", "lib\\x", "../proj/lib", "..", ".",
+    "a.jmc/y", "lib.jmc/x", "sub/c.jmc/z", "a.jmc/../lib", "lib.jmc/../a"]
+WILD_STRINGS = [
+    "lib/*", "lib\\*", ("lib\\*", "raw"), "./lib/*", "lib//*", "lib/./*", "zz/../lib/*", "zz/../lib\\*", "lib/../lib/*", "sub/../lib\\*", "a.jmc/../lib/*", "lib/sub/../*", "lib/sub/*", "lib/sub\\*", ("lib/sub\\*", "raw"),
+    "lib\\sub/*", "lib\\sub\\*", "./*", "/*", "\\*", ("\\*", "raw"), ".\\*", "sub/../*", "sub/..\\*", "Lib/*", "only/*", "only\\*", "lib.jmc/*", "lib/d.jmc/*",
+    "lib/x.jmc/*", "nodir/*", "nodir\\*", "{ROOT}/w/proj/lib/*", "{ROOT}/w/proj/lib\\*", "../proj/lib/*", "../proj/lib\\*", "../*", "..\\*", "*/*", "sub/*",
+    "sub\\*", "lib/**", "lib/*/", "a.jmc/*", "x.jmc/*"]
+SUB_STRINGS = [       # written in sub/c.jmc
+    "../lib", "../lib.jmc", "../lib/*", "../lib\\*", "..\\*", "../*", "*", "./*", "/*", "\\*", "c", "../sub/c", "../sub\\c", "by", "../a", "../A", "",
+    "../lib/sub/*", "../lib/sub\\*", "deep/*", "../sub/*", "../x.jmc", "../x", "../only", "../only/*", "{ROOT}/w/proj/lib", "{ROOT}/w/proj/lib\\*"]
+LIB_STRINGS = ["lib/*", "lib\\*", "lib/x", "lib/x.jmc", "./lib/sub/*", "lib", "lib.jmc", "lib/sub\\*"]      # written in lib.jmc itself
+
+
+def names_universe(variant: int, n0: int = 1100):
+    """the files of the name space -> ({path: items}, {look-alike path: text}); every file leaves a trace where it is pasted"""
+    paths = ["lib.jmc", "lib/x.jmc", "lib/X.jmc", "lib/sub/y.jmc", "a.jmc", "A.jmc", "a.b.jmc", "x.jmc", "x.jmc.jmc", ".jmc", "sub\\c.jmc",
+             "sub/c.jmc", "by.jmc", "sub/by.jmc", "lib/sub/by.jmc", "Lib/x.jmc", "only/o.jmc", "lib\\sub/w.jmc"]
+    if variant % 2 == 0:
+        paths += ["lib/d.jmc/z.jmc"]                 # a FOLDER called d.jmc below lib/
+    if variant % 3 == 0:
+        paths += ["*.jmc", "sub/.jmc"]
+    files, n = {}, n0
+    for q in paths:
+        files[f"{P}/{q}"] = [("load", n, "if" if n % 4 == 0 else "say"), ("def", n + 1, "plain")]
+        n += 2
+    files["w/other/o.jmc"] = [("load", n, "say")]
+    files["w/by.jmc"] = [("load", n + 1, "say")]
+    extra = {f"{P}/lib/x.jmcx": 'say "NOT-A-SOURCE";\n', f"{P}/lib/x.jmc.bak": 'say "NOT-A-SOURCE";\n', f"{P}/lib/notes.txt": "not jmc {\n",
+             f"{P}/lib/jmc": 'say "NOT-A-SOURCE";\n', f"{P}/sub/c": 'say "NOT-A-SOURCE";\n', f"{P}/a": 'say "NOT-A-SOURCE";\n', f"{P}/a.JMC": 'say "NOT-A-SOURCE";\n'}
+    return files, extra
+
+
+def gen_names(rng, tier):
+    """hand-made: ONE import string per project (in main, in a file of a sub-folder, in the module file next to its folder) over the whole
+    universe of names; random: several strings per project over a random part of the universe"""
+    out = []
+    m = f"{P}/main.jmc"
+    L = lambda n, k="say": ("load", n, k)   # noqa
+    spell = MAIN_SPELLINGS[:4]
+    k = 0
+
+    def imp(s):
+        return ("import",) + (s if isinstance(s, tuple) else (s,))
+
+    def proj(files, extra, tag):
+        nonlocal k
+        for cwd, target in ([spell[k % len(spell)]] if tier == "quick" else [spell[k % len(spell)], spell[(k + 1) % len(spell)]]):
+            out.append(Project(files, ["w/other", f"{P}/sub", f"{P}/emptydir"], cwd, target, tag, extra))
+        k += 1
+    for s in NAMED_STRINGS + WILD_STRINGS:
+        files, extra = names_universe(k)
+        files[m] = [L(1000), imp(s), L(1001, "if"), ("def", 1002, "plain")]
+        proj(files, extra, "names-main")
+    for s in SUB_STRINGS:
+        files, extra = names_universe(k)
+        files[m] = [L(1000), ("import", "sub/c"), L(1001)]
+        files[f"{P}/sub/c.jmc"] = [L(1002, "if"), imp(s), L(1003)]
+        proj(files, extra, "names-sub")
+    for s in LIB_STRINGS:
+        files, extra = names_universe(k)
+        files[m] = [L(1000), ("import", "lib"), L(1001)]
+        files[f"{P}/lib.jmc"] = [L(1002, "if"), imp(s), L(1003), ("def", 1004, "plain")]
+        proj(files, extra, "names-module-file")
+    # the same file / folder named twice, spelled differently (imported once)
+    for a, b in [("lib", "./lib.jmc/"), ("lib/*", "lib\\*"), ("lib\\*", "./lib/./*"), ("sub\\c", "./sub\\c.jmc"), ("lib/x", "lib/*"), ("lib/*", "lib/X"),
+                 ("a", "A"), ("lib", "lib/*"), ("lib/*", "lib"), ("", "./.jmc"), ("lib/sub\\*", "lib/*"), ("x", "x.jmc.jmc")]:
+        files, extra = names_universe(k)
+        files[m] = [L(1000), imp(a), L(1001, "if"), imp(b), L(1002)]
+        proj(files, extra, "names-twice")
+    # random: part of the universe, several strings, written in several files
+    pool = [s for s in NAMED_STRINGS + WILD_STRINGS] + [s for s in SUB_STRINGS]
+    for ci in range(40 if tier == "quick" else 500):
+        files, extra = names_universe(rng.randrange(6))
+        for f in rng.sample(sorted(files), rng.randint(0, 8)):
+            del files[f]
+        for e in rng.sample(sorted(extra), rng.randint(0, len(extra))):
+            del extra[e]
+        files[m] = [L(1000), L(1001, "if")]
+        holders = [m] + [f for f in sorted(files) if f != m and rng.random() < .3]
+        for _ in range(rng.randint(1, 5)):
+            f = rng.choice(holders)
+            r = rng.random()
+            if r < .4:
+                it = imp(rng.choice(pool))
+            elif r < .75 and len(files) > 1:
+                c = named_spellings(f, rng.choice(sorted(files)))
+                it = imp(rng.choice(c)) if c else imp(rng.choice(pool))
+            else:
+                c = wild_spellings(f, rng.choice(sorted({posixpath.dirname(x) for x in files} | {f"{P}/emptydir", "w"})))
+                it = imp(rng.choice(c)) if c else imp(rng.choice(pool))
+            files[f].insert(rng.randint(0, len(files[f])), it)
+        cwd, target = rng.choice(MAIN_SPELLINGS)
+        out.append(Project(files, ["w/other", f"{P}/sub", f"{P}/emptydir"], cwd, target, "names-rnd", extra))
     return out
 
 
@@ -667,7 +862,7 @@ def edit_project(rng, pr: Project, kind: str) -> Project | None:
         raise ValueError(kind)
     if pr.cwd not in dirs and not any(f.startswith(pr.cwd + "/") for f in files):
         dirs.append(pr.cwd)             # the working directory is part of the input: it stays
-    return Project(files, dirs, pr.cwd, pr.target, pr.tag)
+    return Project(files, dirs, pr.cwd, pr.target, pr.tag, pr.extra)
 
 
 EDIT_KINDS = ["add", "add", "remove", "edit", "move", "import", "rmdir"]
@@ -899,30 +1094,72 @@ def result_key(res: dict, layout: dict | None = None, cwd_t: tuple | None = None
 
 # ------------------------------------------------------------------ Coq terms
 
-def coq_path(t: tuple) -> str:
+# round 4: coqc parses string literals slowly (~20 kB/s) and a project of the name space repeats every path many times (tree, directory
+# tree, one listing per ancestor folder, files opened): every distinct path is defined ONCE per generated file and used by name
+PATHS: dict = {}
+
+
+def coq_path_lit(t: tuple) -> str:
     return coq_list(coq_str(c) for c in t)
+
+
+def coq_path(t: tuple) -> str:
+    t = tuple(t)
+    if t not in PATHS:
+        PATHS[t] = f"pth_{len(PATHS)}"
+    return PATHS[t]
+
+
+def eval_both(terms: list[str], specs: list[str], per_file: int = 60):
+    """model_obs == real observation (Run.C17.mismatches) and Coq flatten == harness flatten (spec_ok) in ONE evaluation of each case
+    -> (indices differing on the first, indices differing on the second, error outputs)"""
+    from lib import run_coq_files, parse_nat_list
+    names = {v: k for k, v in PATHS.items()}
+    files = []
+    for fi, start in enumerate(range(0, len(terms), per_file)):
+        chunk = [f"({t}, {sp})" for t, sp in zip(terms[start:start + per_file], specs[start:start + per_file])]
+        body = ";\n".join(chunk)
+        used = sorted(set(re.findall(r"\bpth_\d+\b", body)), key=lambda x: int(x[4:]))
+        defs = "".join(f"Definition {u} : apath := {coq_path_lit(names[u])}.\n" for u in used if u in names)
+        text = (HEADER + defs + "Definition cases : list (case * option (list nat)) := [\n" + body + "\n].\n"
+                "Definition both_bad (l : list (case * option (list nat))) : list nat :=\n"
+                "  map (fun i => 2 * i) (bad_indices (fun cs => case_ok (fst cs)) l) ++ map (fun i => 2 * i + 1) (bad_indices (fun cs => spec_ok (fst cs) (snd cs)) l).\n"
+                "Eval vm_compute in both_bad cases.\n")
+        files.append((f"cases_{fi}.v", text))
+    outs = run_coq_files(PROP, files, timeout=900)
+    bad, bad2, errs = [], [], []
+    for fi, (ok, out) in enumerate(outs):
+        if not ok:
+            errs.append(f"{files[fi][0]}: {out[-3000:]}")
+            continue
+        for c in parse_nat_list(out):
+            (bad2 if c % 2 else bad).append(fi * per_file + c // 2)
+    return sorted(bad), sorted(bad2), errs
+
+
+def cid(n) -> str:
+    """item ids are 1000..1999 in the program text (ID_RE finds them in the output); in the Coq terms they are written n - 1000:
+    a nat literal is a unary term, `1100` costs 1100 constructors to parse and type-check (measured: 26 s -> 5 s per 60 cases)"""
+    n = int(n)
+    return str(n - 1000) if n >= 1000 else "1000"
 
 
 def coq_item(it) -> str:
     if it[0] == "load":
-        return f"ILoad {it[1]}"
+        return f"SrcLoad {cid(it[1])}"
     if it[0] == "def":
-        return f"IDef {it[1]}"
-    if it[0] == "import":
-        s = model_str(it[1])
-        return f"IImport {coq_bool(s.startswith('/'))} {coq_list(coq_str(c) for c in s.split('/'))}"
-    d = model_str(it[1][:-2])
-    return f"IWild {coq_bool(d.startswith('/'))} {coq_list(coq_str(c) for c in d.split('/'))}"
+        return f"SrcDef {cid(it[1])}"
+    return f"SrcImport {coq_str(model_str(it[1]))}"       # round 4: the STRING; Model/ImportPath.v lower_import reads it
 
 
 def coq_robs(o) -> str:
     if o[0] == "ok":
-        return (f"(ROk {coq_list(str(n) for n in o[1])} {coq_list(str(n) for n in o[2])} "
-                f"{coq_list(coq_path(p) for p in o[3])} {coq_list(str(n) for n in o[4])} {coq_list(coq_path(p) for p in o[5])})")
+        return (f"(ROk {coq_list(cid(n) for n in o[1])} {coq_list(cid(n) for n in o[2])} "
+                f"{coq_list(coq_path(p) for p in o[3])} {coq_list(cid(n) for n in o[4])} {coq_list(coq_path(p) for p in o[5])})")
     if o[0] == "bad":
-        return f"(RBad {o[1]} {coq_path(o[2])})"
+        return f"(RBad {cid(o[1])} {coq_path(o[2])})"
     if o[0] == "dup":
-        return f"(RDup {o[1]})"
+        return f"(RDup {cid(o[1])})"
     if o[0] == "notfound":
         return f"(RNotFound {coq_path(o[1])})"
     if o[0] == "dirnotfound":
@@ -934,15 +1171,16 @@ def alloc_ids(pr: Project) -> set:
     return {it[1] for its in pr.files.values() for it in its if it[0] in ("load", "def") and it[2] in ALLOC_KINDS}
 
 
-def coq_case(pr: Project, listing: dict, obs, mode="Repaired") -> str:
-    tree = coq_list(f"({coq_path(tup(f))}, {coq_list(coq_item(i) for i in its)})" for f, its in pr.files.items())
+def coq_case(pr: Project, listing: dict, obs, mode="Repaired", nodes=()) -> str:
+    tree = "(lower_tree " + coq_list(f"({coq_path(tup(f))}, {coq_list(coq_item(i) for i in its)})" for f, its in pr.files.items()) + ")"
+    fs = coq_list(f"({coq_path(n)}, {'NDir' if k == 'd' else 'NFile'})" for n, k in nodes)
     dirs = coq_list(f"({coq_path(d)}, {coq_list(coq_path(f) for f in fl)})" for d, fl in listing.items() if fl is not None)
     t = model_str(pr.target)
     alloc = sorted(alloc_ids(pr))
-    return (f"mkCase {mode} {tree} {dirs} {coq_path(tup(pr.cwd))} {coq_bool(t.startswith('/'))} "
-            f"{coq_list(coq_str(c) for c in t.split('/'))} {coq_list(str(n) for n in alloc)} "
-            f"{coq_list(str(n) for n in pr.ids_of(WATCHED_KINDS))} {coq_list(str(n) for n in pr.ids_of(BAD_KINDS))} "
-            f"{coq_list(str(n) for n in pr.ids_of(HIDDEN_KINDS))} {coq_robs(obs)}")
+    return (f"mkCase {mode} {tree} {fs} {dirs} {coq_path(tup(pr.cwd))} {coq_bool(t.startswith('/'))} "
+            f"{coq_list(coq_str(c) for c in t.split('/'))} {coq_list(cid(n) for n in alloc)} "
+            f"{coq_list(cid(n) for n in pr.ids_of(WATCHED_KINDS))} {coq_list(cid(n) for n in pr.ids_of(BAD_KINDS))} "
+            f"{coq_list(cid(n) for n in pr.ids_of(HIDDEN_KINDS))} {coq_robs(obs)}")
 
 
 # ------------------------------------------------------------------ running
@@ -958,7 +1196,6 @@ def listing_of(pr: Project, res: dict) -> dict:
     out = {}
     for d, fl in res["globs"].items():
         out[tup(d)] = None if fl is None else [tup(f) for f in fl]
-    # ancestors of the root directories that certainly exist and hold no .jmc of their own are derived too
     return out
 
 
@@ -971,14 +1208,16 @@ def evaluate(projects: list[Project], reals: list[dict] | None = None):
     for i, (pr, r) in enumerate(zip(projects, res)):
         listing = listing_of(pr, r)
         files = {tup(f): its for f, its in pr.files.items()}
+        order = []
         try:
-            flat = spec_flatten(files, listing, pr.main_id())
+            flat = spec_flatten(files, listing, pr.main_id(), order)
             spec = ("ok", flat)
             flat_idx.append(i)
             flat_jobs.append(flat_job(flat, pr.aux_files()))
         except SpecError as e:
             spec = (e.kind, e.path)
-        rows.append(dict(project=pr, real=r, listing=listing, spec=spec, flat_real=None))
+        rows.append(dict(project=pr, real=r, listing=listing, spec=spec, flat_real=None, order=order,
+                         nodes=[(tup(n), k) for n, k in r.get("nodes", [])]))
     for i, fr in zip(flat_idx, run_jobs(flat_jobs)):
         rows[i]["flat_real"] = fr
     return rows
@@ -996,6 +1235,11 @@ def property_failure(row) -> dict | None:
         opens = r.get("opens", [])
         if len(opens) != len(set(opens)):
             return dict(expected="every .jmc file read at most once", actual=opens, what="a file was parsed twice")
+        want = ["/".join(f[1:]) for f in row.get("order", [])]
+        if r["ok"] and row.get("order") and opens != want:       # round 4: the SET and ORDER of the files read
+            return dict(expected=want, actual=opens,
+                        what="the .jmc files read are not exactly the files the import statements lead to, in the order they are pasted "
+                             "(a bystander was read / an imported file was not / read early or late)")
         return None
     obs = observe(r)
     if obs[0] != spec[0] or tuple(obs[1]) != tuple(spec[1]):
@@ -1020,14 +1264,20 @@ def shrink(pr: Project, fails) -> Project:
     while changed and budget > 0:
         changed = False
         cands = []
+        main = "/".join(cur.main_id()[1:])
+        for f in cur.files:                       # round 4: whole files / look-alike files first (projects of the name space are large)
+            if f != main:
+                cands.append(Project({g: v for g, v in cur.files.items() if g != f}, cur.dirs, cur.cwd, cur.target, cur.tag, cur.extra))
+        for e in cur.extra:
+            cands.append(Project(cur.files, cur.dirs, cur.cwd, cur.target, cur.tag, {g: v for g, v in cur.extra.items() if g != e}))
         for f, its in cur.files.items():
             for k in range(len(its)):
                 nf = dict(cur.files)
                 nf[f] = its[:k] + its[k + 1:]
-                cands.append(Project(nf, cur.dirs, cur.cwd, cur.target, cur.tag))
+                cands.append(Project(nf, cur.dirs, cur.cwd, cur.target, cur.tag, cur.extra))
         if not cands:
             break
-        rows = evaluate(cands[:60])
+        rows = evaluate(cands[:80])
         budget -= 1
         for c, row in zip(cands, rows):
             if fails(row):
@@ -1048,7 +1298,9 @@ def known_class(row):
        match = {"requires_kind": <item kind that must occur in the project>,
                 "normalize": "run-execute"  (project and flattened outputs are equal once ` run execute ` is folded)
                            | "deferred-diagnostic"  (both sides raise the same 'was never defined' diagnostic, raised when the pack is
-                                                     built; only the file / line / source line it cites differ)}"""
+                                                     built; only the file / line / source line it cites differ)
+                           | "jmc-folder"  (IsADirectoryError and a folder called *.jmc exists, or NotADirectoryError and a named import
+                                            names something below a FILE: fixes/C17-import-path-not-a-file.patch)}"""
     pr = row["project"]
     kinds = {it[2] for its in pr.files.values() for it in its if it[0] in ("load", "def")}
     for f in known_for(PROP):
@@ -1060,6 +1312,20 @@ def known_class(row):
             if a is None or a != b:
                 continue
             return f
+        if m.get("normalize") == "jmc-folder":
+            # round 4: the compile stops with IsADirectoryError and the directory tree has a FOLDER whose name ends in .jmc,
+            #          or with NotADirectoryError and a named import walks "through" a FILE (x.jmc/y)
+            r = row["real"]
+            nodes = row.get("nodes", [])
+            if r["ok"]:
+                continue
+            if r.get("exc") == "IsADirectoryError" and any(k == "d" and n[-1].endswith(".jmc") for n, k in nodes):
+                return f
+            through_file = any(it[0] == "import" and any((spec_target(tup(fn), it[1])[:j], "f") in set(nodes) for j in range(1, 12))
+                               for fn, its in pr.files.items() for it in its)
+            if r.get("exc") == "NotADirectoryError" and through_file:
+                return f
+            continue
         if m.get("normalize") == "deferred-diagnostic":
             r, fr = row["real"], row["flat_real"]
             if not fr or r["ok"] or fr["ok"] or "was never defined" not in r.get("msg", "") or result_key(r) != result_key(fr):
@@ -1100,6 +1366,34 @@ def fs_stats(rows) -> dict:
                 outcomes={k: sum(1 for r in fs if r["obs"][0] == k) for k in sorted({r["obs"][0] for r in fs})})
 
 
+def names_stats(rows) -> dict:
+    """strengthening round 4: what the name / spelling space really exercised"""
+    nm = [r for r in rows if r["project"].tag.startswith("names-")]
+    strings = {}
+    for r in rows:
+        for its in r["project"].files.values():
+            for it in its:
+                if it[0] in ("import", "wild"):
+                    strings[it[1]] = strings.get(it[1], 0) + 1
+
+    def n(pred):
+        return sum(1 for s in strings if pred(s))
+    read = lambda r: set(r["real"].get("opens", []))   # noqa
+    return dict(projects=len(nm), by_tag={t: sum(1 for r in nm if r["project"].tag == t) for t in sorted({r["project"].tag for r in nm})},
+                outcomes={k: sum(1 for r in nm if r["obs"][0] + "/" + r["spec"][0] == k) for k in sorted({r["obs"][0] + "/" + r["spec"][0] for r in nm})},
+                distinct_import_strings_all_streams=len(strings),
+                strings=dict(wildcard_slash=n(lambda s: s.endswith("/*")), wildcard_backslash=n(lambda s: s.endswith("\\*")),
+                             named_with_backslash=n(lambda s: "\\" in s and not is_wild(s)), with_dotdot=n(lambda s: ".." in s.split("/")),
+                             doubled_slash=n(lambda s: "//" in s), trailing_slash_or_dot=n(lambda s: not is_wild(s) and (s.endswith("/") or s.endswith("/."))),
+                             absolute=n(lambda s: s.startswith("{ROOT}")), named_without_suffix=n(lambda s: not is_wild(s) and not s.rstrip("/.").endswith(".jmc"))),
+                projects_with_same_stem_file_and_folder=sum(1 for r in rows if any(f[:-4] + "/" in g for f in r["project"].files for g in r["project"].files if g != f)),
+                projects_with_a_folder_called_x_jmc=sum(1 for r in rows if any(k == "d" and nn[-1].endswith(".jmc") for nn, k in r["nodes"])),
+                bystander_jmc_files_not_read=sum(len([f for f in r["project"].files if f not in read(r)]) for r in nm if r["real"]["ok"]),
+                lookalike_files_present=sum(len(r["project"].extra) for r in nm),
+                wildcard_refused_by_the_walk=sum(1 for r in nm for f, its in r["project"].files.items() for it in its
+                                                 if it[0] == "wild" and not spec_walk_ok(tup(f), it[1], r["listing"]) and r["listing"].get(spec_dir(tup(f), it[1])) is not None))
+
+
 def main(tier: str) -> int:
     ck = Check(PROP, tier)
     ck.cov["trusted_base"] = COMMON_TRUSTED + [
@@ -1112,18 +1406,26 @@ def main(tier: str) -> int:
         "file-sensitive load statements (round 3): the model says which file's tokenizer parses a batch (EvBatch tok l, C17_load_batch_file); what a "
         "tokenizer's file is used for (diagnostics, Debug.watch source line, JMC.pythonFile folder) is not modelled - observed on the real output: printed "
         "file names are mapped back to files by harness/c17.py printed_file, item lines by Project.layout",
+        "import strings (round 4): Model/ImportPath.v lower_import / split_slash / strip_wild is a hand-written port of the string tests of the import "
+        "branch (endswith '/*' or '\\*', [:-2], string + '.jmc'); POSIX pathlib only ('/' the only separator; a string starting with exactly two slashes "
+        "and symbolic links are outside the model); `folder.is_dir()` = every name walked through is a folder of the tree (walk_ok); the directory tree "
+        "and the Path.glob listings are taken from the real file system (c17_run.py survey) and checked against each other by listing_okb in every case; "
+        "that Path.glob('**/*.jmc') lists every .jmc below a folder is thereby checked on the generated trees, not proved about CPython",
         "the model is a function of the source tree alone (no state between compiles): that the CODE keeps nothing between compiles of an edited "
         "folder is checked by the edit sequences (c17_run.py sync_tree edits one folder in place, every state compiled in one process)",
     ]
     ck.proof(extra_targets=["Run/C17.vo"])
     rng = ck.rng
     projects = (gen_adversarial(rng) + gen_exhaustive(rng, tier) + gen_random(rng, 150 if tier == "quick" else 1500)
-                + gen_filesens(rng, tier))
+                + gen_filesens(rng, tier) + gen_names(rng, tier))
+    only = os.environ.get("C17_ONLY")               # dev aid: C17_ONLY=names -> only the projects whose tag starts with it, no edit sequences
+    if only:
+        projects = [p for p in projects if p.tag.startswith(only)]
     rows = evaluate(projects)
 
     # ---- 0. edit sequences (strengthening round 2): every state of a project folder compiled in turn in ONE process; each state is a row
     #         like any other project (property on the real compiler, model prediction, Coq flatten), its real result being the in-process one
-    seqs = gen_sequences(rng, tier)
+    seqs = gen_sequences(rng, tier) if not only else []
     seq_res = run_sequences(seqs)
     seq_rows = evaluate([p for _, steps in seqs for p in steps], [r for rs in seq_res for r in rs])
     k = 0
@@ -1210,17 +1512,12 @@ def main(tier: str) -> int:
         pr = row["project"]
         obs = observe(row["real"], alloc_ids(pr), pr)
         row["obs"] = obs
-        terms.append(coq_case(pr, row["listing"], obs, os.environ.get("C17_MODEL_MODE", "Repaired")))
+        terms.append(coq_case(pr, row["listing"], obs, os.environ.get("C17_MODEL_MODE", "Repaired"), row["nodes"]))
         sp = row["spec"]
-        specs.append("(Some " + coq_list(str(i[1]) for i in sp[1]) + ")" if sp[0] == "ok" else "None")
-    bad, errs = eval_cases(PROP, HEADER, terms, per_file=150)
+        specs.append("(Some " + coq_list(cid(i[1]) for i in sp[1]) + ")" if sp[0] == "ok" else "None")
+    bad, bad2, errs = eval_both(terms, specs)
     for e in errs:
         ck.violation(dict(kind="correspondence-file-failed", log=e), no_input=True)
-    pair_terms = [f"({t}, {s})" for t, s in zip(terms, specs)]
-    hdr2 = HEADER + "Definition spec_bad (l : list (case * option (list nat))) := bad_indices (fun cs => spec_ok (fst cs) (snd cs)) l.\n"
-    bad2, errs2 = eval_cases(PROP, hdr2, pair_terms, per_file=150, checker="spec_bad", prefix="spec")
-    for e in errs2:
-        ck.violation(dict(kind="spec-file-failed", log=e), no_input=True)
     silent = [i for i in bad if not rows[i]["fail"]]
     if silent:
         ck.violation(dict(kind="correspondence-differs",
@@ -1257,6 +1554,7 @@ def main(tier: str) -> int:
         outcome_histogram=kinds, shape_histogram=shape, projects_with_import_of_main=cyc,
         main_spellings=[f"cwd={c} target={t}" for c, t in MAIN_SPELLINGS],
         file_sensitive=fs_stats(rows),
+        name_and_spelling_space=names_stats(rows),
         edit_sequences=dict(sequences=len(seqs), states=len(seq_rows), by_edit={t: sum(1 for tt, _ in seqs if tt == t) for t in sorted({tt for tt, _ in seqs})},
                             states_after_an_edit=len(ctl_idx), fresh_process_controls=n_ctl, controls_with_other_directory_order=n_ctl_listing_differs,
                             states_with_wildcard=sum(1 for r in seq_rows if wild_dirs_of(r["project"])),
